@@ -157,7 +157,11 @@ impl Report {
             for m in &self.machinery_errors {
                 eprintln!("MACHINERY-ERROR: {m}");
             }
-            return 2;
+            // a violation that was found and has a replay stands on its own (a failing history
+            // often is the reason why a later phase had nothing to explore)
+            if by_key.is_empty() {
+                return 2;
+            }
         }
         println!(
             "{} {}: violations={} known={} wall={:.1}s",
